@@ -217,6 +217,57 @@ class Struct(Sort):
         return VStruct(self.sname, {a: s.make(ex, st, '%s.%s' % (name, a)) for a, s in self.fields.items()})
 
 
+class SetList(Sort):
+    """list of sets; elem: 'pair' ((int,int) tuples) or a z3 sort"""
+
+    def __init__(self, elem='pair'):
+        self.elem = elem
+
+    def make(self, ex, st, name):
+        from .values import SetListContent, Pair
+        es = Pair if self.elem == 'pair' else self.elem
+        n = z3.Int(fresh_name(name + '.len'))
+        st.pc.append(n >= 0)
+        data = z3.Const(fresh_name(name), z3.ArraySort(z3.IntSort(), z3.ArraySort(es, z3.BoolSort())))
+        ref = Ref(name)
+        st.heap[ref.id] = SetListContent(n, data, es)
+        return ref
+
+
+class MapList(Sort):
+    def make(self, ex, st, name):
+        from .values import MapListContent
+        n = z3.Int(fresh_name(name + '.len'))
+        st.pc.append(n >= 0)
+        has = z3.Const(fresh_name(name + '.has'), z3.ArraySort(z3.IntSort(), z3.ArraySort(z3.IntSort(), z3.BoolSort())))
+        val = z3.Const(fresh_name(name + '.val'), z3.ArraySort(z3.IntSort(), z3.ArraySort(z3.IntSort(), z3.IntSort())))
+        ref = Ref(name)
+        st.heap[ref.id] = MapListContent(n, has, val)
+        return ref
+
+
+class SpecSetList:
+    def __init__(self, c):
+        self.len, self.data, self.elem_sort = c.length, c.data, c.elem_sort
+
+    def __getitem__(self, k):
+        return z3.Select(self.data, to_z3(k))
+
+    def member(self, k, e):
+        return z3.Select(z3.Select(self.data, to_z3(k)), e)
+
+
+class SpecMapList:
+    def __init__(self, c):
+        self.len, self._has, self._val = c.length, c.has, c.val
+
+    def has(self, p, i):
+        return z3.Select(z3.Select(self._has, to_z3(p)), to_z3(i))
+
+    def val(self, p, i):
+        return z3.Select(z3.Select(self._val, to_z3(p)), to_z3(i))
+
+
 class PtrTo(Sort):
     """C pointer to the first element of a fresh array"""
 
@@ -293,8 +344,11 @@ class LoopSpec:
     """invariant / variant of one loop.  `match` is a regex that must match the loop's header line in
     the current source (so that silent drift of the code under a contract is detected)."""
 
-    def __init__(self, match, inv=None, dec=None, unroll=False):
+    def __init__(self, match, inv=None, dec=None, unroll=False, enter=None, step=None):
         self.match, self.inv, self.dec, self.unroll = match, inv, dec, unroll
+        # ghost code: enter(view) -> {ghost name: value} at the start of every iteration (after the loop targets are
+        # bound), step(view) -> {...} at its end (before the invariant is re-established)
+        self.enter, self.step = enter, step
 
 
 class Inline:
